@@ -13,7 +13,7 @@ from ..run import hyp_search, mix
 
 RULE = ('(a) unchecked parents of ANY of the 441 classes with Hypothesis-drawn histories (0-12 ops quick, 0-30 '
         'thorough) whose children are drawn from all 441 classes: add, forward add, remove, replace (any name), '
-        'xml_* assignment of schema children, to_string: no call may raise, both child views equal the insertion '
+        'xml_* assignment of schema children, to_string, deepcopy (the copy is unchecked and serialises alike): no call may raise, both child views equal the insertion '
         'order model, to_string lists the children in insertion order; (b) byte identity: for Hypothesis-drawn and '
         'enumerated (length<=3) schema-valid words that the checked twin accepts and keeps in order, the unchecked '
         'twin\'s to_string is byte-identical; (c) mixed trees: a checked element nested under 1-3 unchecked ancestors '
@@ -97,6 +97,16 @@ def run_unchecked(el, ops):
             r = call(setattr, e, 'xml_' + py_name(op[1]), None)
             if r.ok and found is not None:
                 model.remove(found)
+        elif k == 'deepcopy':
+            # copying is no structural check either: the copy of an unchecked element takes whatever the original holds
+            import copy as _copy
+            r = call(_copy.deepcopy, e)
+            if r.ok:
+                ra, rb = call(e.to_string), call(r.value.to_string)
+                if ra.verdict() != rb.verdict() or bool(r.value.xsd_check):
+                    return F('unchecked-copy-differs', t, inp, {'step': i, 'original': ra.verdict()[0],
+                                                                'copy': rb.verdict()[0],
+                                                                'copy.xsd_check': bool(r.value.xsd_check)}), False
         elif k == 'to_string':
             r = call(e.to_string, intelligent_choice=bool(op[1]))
             if r.ok:
@@ -471,7 +481,7 @@ def run_shard(ctx, shard, acc):
             n_held = 0
             for _ in range(data.draw(st.integers(0, maxops))):
                 k = data.draw(st.sampled_from(['add', 'add', 'add', 'add_fwd', 'remove', 'replace', 'dot_inst',
-                                               'dot_none', 'to_string']))
+                                               'dot_none', 'to_string', 'deepcopy']))
                 nm = data.draw(st.sampled_from(own)) if (own and data.draw(st.integers(0, 1))) \
                     else data.draw(st.sampled_from(names))
                 if k == 'add':
@@ -485,10 +495,13 @@ def run_shard(ctx, shard, acc):
                 elif k in ('dot_inst', 'dot_none'):
                     if own:
                         ops.append([k, data.draw(st.sampled_from(own))])
+                elif k == 'deepcopy':
+                    ops.append(['deepcopy'])
                 else:
                     ops.append(['to_string', data.draw(st.integers(0, 1))])
             ops.append(['to_string', 1])
             ops.append(['to_string', 0])
+            ops.append(['deepcopy'])
             f, rejected = run_unchecked(el, ops)
             acc.case({'mode': 'unchecked', 'element': el, 'ops': ops}, rejected, len(ops))
             acc.count('checked-twin-would-reject' if rejected else 'checked-twin-would-accept')
